@@ -13,7 +13,7 @@ positive and negative responses) and every global negative response of the layer
   MAYBE    everything else: trailing bytes after a complete c, a coded constant *behind* the prefix differs,
            a MATCHING-REQUEST-PARAM that is only partially (or not at the front) backed by request constants differs
 
-The *constant prefix* of a request is its leading run of CODED-CONST parameters; the constant prefix of a
+The *constant prefix* of a request is its leading run of CODED-CONST and PHYS-CONST parameters; the constant prefix of a
 response (given the service whose request has constant prefix rp) is its leading run of CODED-CONST parameters
 and of MATCHING-REQUEST-PARAMs which lie completely inside rp.
 
@@ -28,7 +28,8 @@ Pair level:      a reported (s, c) is forbidden if c is NOMATCH for s (or c is n
 
 The envelope is deliberately small and boring: STANDARD-LENGTH A_UINT32 types (high-low byte order), whole bytes
 except for CODED-CONSTs (1..32 bits at a bit position; the constants of the prefix must fill whole bytes),
-IDENTICAL compu methods, parameters CODED-CONST, VALUE, MATCHING-REQUEST-PARAM, NRC-CONST, explicit or automatic
+IDENTICAL compu methods, parameters CODED-CONST, PHYS-CONST (whole bytes; a differing PHYS-CONST is NOMATCH
+anywhere: the parameter refuses it itself in strict mode), VALUE, MATCHING-REQUEST-PARAM, NRC-CONST, explicit or automatic
 byte positions.  Anything else raises Envelope.
 """
 from __future__ import annotations
@@ -106,10 +107,13 @@ class RefLayer:
             hard = False
             if p.get("bit") and t != "CODED-CONST":
                 raise Envelope("bit position")
-            if t == "CODED-CONST":
-                bit, nbits = p.get("bit") or 0, _nbits(p["dct"])
+            if t in ("CODED-CONST", "PHYS-CONST"):
+                if t == "PHYS-CONST":  # (IDENTICAL compu method: the physical constant is the coded value)
+                    bit, nbits, cval = 0, 8 * _nbytes(self._simple_dop(p["dop"])), int(p["const"])
+                else:
+                    bit, nbits, cval = p.get("bit") or 0, _nbits(p["dct"]), int(p["value"])
                 n = (bit + nbits + 7) // 8
-                vb = (int(p["value"]) << bit).to_bytes(n, "big")
+                vb = (cval << bit).to_bytes(n, "big")
                 mb = (((1 << nbits) - 1) << bit).to_bytes(n, "big")
                 arg: Any = (vb, mb, bit, nbits)
                 # part of the constant prefix: in the leading run of constants and adjacent to / inside the bytes built so far
@@ -137,10 +141,7 @@ class RefLayer:
                 else:
                     in_prefix = False
             elif t == "VALUE":
-                d = self.dops[p["dop"]]
-                if d.get("kind", "dop") != "dop" or d.get("cm", {"cat": "IDENTICAL"})["cat"] != "IDENTICAL":
-                    raise Envelope("DOP " + p["dop"])
-                n = _nbytes(d["dct"])
+                n = _nbytes(self._simple_dop(p["dop"]))
                 arg = None
                 in_prefix = False
             elif t == "NRC-CONST":
@@ -155,6 +156,12 @@ class RefLayer:
         if any(c != 0xFF for c in cover):
             raise Envelope("constant prefix ends inside a byte")
         return Plan(steps, length, bytes(pbytes))
+
+    def _simple_dop(self, name: str) -> Dict[str, Any]:
+        d = self.dops[name]
+        if d.get("kind", "dop") != "dop" or d.get("cm", {"cat": "IDENTICAL"})["cat"] != "IDENTICAL":
+            raise Envelope("DOP " + name)
+        return d["dct"]
 
     def plan_for(self, msg: str, rp: bytes) -> Plan:
         k = (msg, rp)
@@ -177,11 +184,13 @@ class RefLayer:
         values: Dict[str, Any] = {}
         for st in pl.steps:
             raw = M[st.pos:st.pos + st.n]
-            if st.kind == "CODED-CONST":
+            if st.kind in ("CODED-CONST", "PHYS-CONST"):
                 vb, mb, bit, nbits = st.arg
                 if bytes(x & m for x, m in zip(raw, mb)) != vb:
                     if st.hard:
                         return NOMATCH, None, "prefix"
+                    if st.kind == "PHYS-CONST":  # (checked by the parameter itself; an error in strict mode)
+                        return NOMATCH, None, "physconst"
                     soft = soft or "coded constant behind the prefix differs"
                 values[st.name] = (int.from_bytes(raw, "big") >> bit) & ((1 << nbits) - 1)
             elif st.kind == "MATCHING-REQUEST-PARAM":
@@ -273,7 +282,7 @@ class RefLayer:
         pl = self.plan_for(msg, b"")
         out = bytearray(pl.length)
         for st in pl.steps:
-            if st.kind == "CODED-CONST":
+            if st.kind in ("CODED-CONST", "PHYS-CONST"):
                 for i, x in enumerate(st.arg[0]):
                     out[st.pos + i] |= x
                 continue
@@ -295,7 +304,7 @@ class RefLayer:
         for svc in self.svcs:
             for m in self.own[svc["name"]]:
                 for st in self.plan_for(m, b"").steps:
-                    if st.kind == "CODED-CONST":
+                    if st.kind in ("CODED-CONST", "PHYS-CONST"):
                         s.update(st.arg[0])
                     elif st.kind == "NRC-CONST":
                         for v in st.arg:
@@ -303,7 +312,7 @@ class RefLayer:
                 s.update(self.plan_for(m, b"").prefix)  # (constants sharing a byte: the assembled byte)
         for m in self.gnrs:
             for st in self.plan_for(m, b"").steps:
-                if st.kind == "CODED-CONST":
+                if st.kind in ("CODED-CONST", "PHYS-CONST"):
                     s.update(st.arg[0])
                 elif st.kind == "NRC-CONST":
                     for v in st.arg:
